@@ -657,6 +657,10 @@ class FunctionParser(BaseParser):
             if not unprovided(default):
                 # this position is definitely after parsed_args
                 # because required args is always (we enforce check) ahead of default args
+                while len(parsed_args) < index and len(parsed_args) in self.exclude_indexes:
+                    # an omitted private (excluded) parameter in front keeps its own default
+                    # instead of receiving the default of this field
+                    parsed_args.append(list(self.parameters)[len(parsed_args)][1].default)
                 parsed_args.append(default)
             parsed_keys.append(field.attname)  # need to append parsed as well
             # positional only field is excluded no matter the arg is provided or not
